@@ -18,13 +18,16 @@ open Common Account.Validate Account.Borsh
 variable {α : Type}
 
 /-- For EVERY history of instructions, each making any number of value changes (of arbitrary,
-size-changing serialized lengths within the runtime's per-instruction growth allowance): the run
+size-changing serialized lengths within the runtime's per-instruction growth allowance) and ending
+with ANY cleanup variant whose cache / lamports side succeeds (`()`, `NormalizeRent`, `ReceiveRent`,
+`RefundRent`, with an explicit or a cached funder / recipient): the run
 succeeds, and what the last instruction left in the wrapper is exactly what the next instruction
 decodes, what the client-side deserializer reads, and the account length is discriminant size plus
 serialized size; the account also still validates as its type. (By induction on the history; since
 it holds for every history it holds after every prefix.) -/
 theorem persist_reload {c : Codec α} (hc : CodecOK c) (t : PType) :
-    ∀ (wss : List (List α)) (a : Acct) (v0 : α), Live c t a v0 → ChainOK c t a.orig v0 wss →
+    ∀ (wss : List (List α × Cleanup)) (a : Acct) (v0 : α), Live c t a v0 →
+      ChainOK c t a.orig v0 wss →
       ∃ a', run c t a wss = .ok a' ∧
         decodeAcct c t a' = .ok { acct := a', val := some (leavesAll v0 wss) } ∧
         clientDeserialize c t a'.data = .ok (leavesAll v0 wss) ∧
@@ -37,23 +40,36 @@ theorem persist_reload {c : Codec α} (hc : CodecOK c) (t : PType) :
     intro a v0 hl _
     refine ⟨a, rfl, decode_live hc hl, client_live hc hl, live_length hc hl, hl.data, ?_⟩
     exact validate_ok_of_admit (live_admit hc hl) (Or.inl (by rw [hl.free]; rfl))
-  | cons ws rest ih =>
+  | cons wsk rest ih =>
+    obtain ⟨ws, k⟩ := wsk
     intro a v0 hl hch
-    obtain ⟨hs, hrest⟩ := hch
-    obtain ⟨a1, hi, hl1⟩ := instr_live hc hl ws hs
+    obtain ⟨hk, hs, hrest⟩ := hch
+    obtain ⟨a1, hi, hl1⟩ := instr_live hc hl ws k hk hs
     have horig : a1.orig = t.W + c.objLen (leaves v0 ws) := by
       rw [hl1.orig]; exact live_length hc hl1
     obtain ⟨a', hr, h⟩ := ih a1 (leaves v0 ws) hl1 (by rw [horig]; exact hrest)
     exact ⟨a', by simp only [run, hi, hr], h⟩
 
+/-- The write-back is part of EVERY cleanup variant other than close: whenever such a cleanup
+succeeds it has performed exactly `serialize()`; when the cache / lamports side succeeds the cleanup
+IS the write-back; and even when it fails, the state it leaves is either untouched or exactly the
+write-back's result (never anything else). -/
+theorem every_cleanup_writes_back {c : Codec α} {t : PType} (k : Cleanup) (hk : ∀ r, k ≠ .close r)
+    (b : BAcct α) :
+    (∀ b', cleanup c t k b = .ok b' → serializeBack c t b = .ok b') ∧
+    (CleanOK k → cleanup c t k b = serializeBack c t b) ∧
+    ((cleanupFull c t k b).1 = b ∨ serializeBack c t b = .ok (cleanupFull c t k b).1) :=
+  ⟨fun _ h => cleanup_ok_writeback hk h, fun h => cleanup_of_ok h b, cleanupFull_state hk b⟩
+
 /-- Read-only accounts, accounts no longer owned by the program, and closed accounts (no more than
-the discriminant left) are never written: the write-back — alone, or as part of the default or the
-rent-refunding cleanup — leaves the whole account and the wrapper untouched. -/
+the discriminant left) are never written: the write-back — alone, or as part of ANY cleanup variant
+other than close, whether that cleanup succeeds or fails — leaves the whole account and the wrapper
+untouched. -/
 theorem never_written {c : Codec α} {t : PType} {b : BAcct α}
     (hg : b.acct.writable = false ∨ b.acct.owner ≠ t.progId ∨ b.acct.data.length ≤ t.W) :
     serializeBack c t b = .ok b ∧
     cleanup c t .dflt b = .ok b ∧
-    (∀ d b', cleanup c t (.refundRent d) b = .ok b' → b' = b) := by
+    (∀ k, (∀ r, k ≠ .close r) → (cleanupFull c t k b).1 = b) := by
   have h1 : serializeBack c t b = .ok b := by
     cases h : serializeBack c t b with
     | ok b' => rw [serializeBack_skips h hg]
@@ -71,12 +87,12 @@ theorem never_written {c : Codec α} {t : PType} {b : BAcct α}
           · have : ¬ b.acct.data.length > t.W := by omega
             simp [this]
         simp [hv, hcond] at h
-  refine ⟨h1, h1, ?_⟩
-  intro d b' h
-  simp only [cleanup, h1] at h
-  split at h
-  · cases h
-  · cases h; rfl
+  refine ⟨h1, ?_, ?_⟩
+  · rw [cleanup_of_ok (by simp [CleanOK]) b, h1]
+  · intro k hk
+    rcases cleanupFull_state (c := c) (t := t) hk b with h | h
+    · exact h
+    · rw [h1] at h; injection h with h; exact h.symm
 
 /-- An account closed by the framework is not written by any later write-back in the same
 instruction, whatever value the wrapper still holds. -/
@@ -124,15 +140,14 @@ bytes of `0xFF` and the wrapper's value is untouched. -/
 theorem close_skips_writeback {c : Codec α} {t : PType} {b b' : BAcct α} {r : Bool}
     (h : cleanup c t (.close r) b = .ok b') :
     r = true ∧ b'.val = b.val ∧ b'.acct.data = List.replicate t.W 255 := by
-  simp only [cleanup, cleanupClose] at h
   cases r with
-  | false => simp at h
+  | false => simp [cleanup, cleanupFull, cleanupClose] at h
   | true =>
-    simp only [if_true] at h
     cases hcl : closeAccount t b.acct with
-    | error e => rw [hcl] at h; cases h
+    | error e => simp [cleanup, cleanupFull, cleanupClose, hcl] at h
     | ok a' =>
-      rw [hcl] at h; cases h
+      simp only [cleanup, cleanupFull, cleanupClose, if_true, hcl] at h
+      cases h
       refine ⟨rfl, rfl, ?_⟩
       unfold closeAccount at hcl
       cases hr : resize b.acct t.W with
@@ -178,12 +193,14 @@ example : Live varCodec exT exA exV0 :=
   { writable := rfl, owner := rfl, free := rfl, data := rfl, orig := rfl,
     valid := by simp [varCodec, exV0, utf8Valid], nonempty := by decide }
 
-example : ChainOK varCodec exT exA.orig exV0 [[exV1], [], [exV0, exV2]] := by
-  simp [ChainOK, StepOK, leaves, varCodec, exV0, exV1, exV2, exT, exA, PType.W, serVal,
+example : ChainOK varCodec exT exA.orig exV0
+    [([exV1], .dflt), ([], .rent .normalize .cached false), ([exV0, exV2], .rent .refund .arg false)] := by
+  simp [ChainOK, StepOK, CleanOK, leaves, varCodec, exV0, exV1, exV2, exT, exA, PType.W, serVal,
     utf8Valid, maxIncrease]
 
 -- grows by 3, stays, shrinks by 5: the account always ends as disc ++ ser (last value)
-example : (run varCodec exT exA [[exV1], [], [exV0, exV2]]).toOption.map (·.data)
+example : (run varCodec exT exA
+    [([exV1], .dflt), ([], .rent .normalize .cached false), ([exV0, exV2], .rent .refund .arg false)]).toOption.map (·.data)
     = some (exT.disc ++ serVal exV2) := by rfl
 
 end Account.C15
